@@ -55,7 +55,9 @@ AddStep(q, pmap, p) ==
   IF p.tei \/ ~p.hp THEN [dec |-> <<>>, out |-> <<>>, q |-> q, lost |-> <<>>]
   ELSE LET mps == Q(q, p.pid) IN
     IF Dup(mps, p) THEN [dec |-> <<"duplicate">>, out |-> <<>>, q |-> q, lost |-> <<>>]
-    ELSE LET disc == Disc(mps, p)
+    \* a packet that starts a payload unit right after the previous packet of its PID ends the previous unit like any other, even when it
+    \* announces a discontinuity (discontinuity_indicator): nothing of the previous unit is missing
+    ELSE LET disc == Disc(mps, p) /\ ~(p.pusi /\ Len(mps) > 0 /\ p.cc = (Last(mps).cc + 1) % CCMOD)
              m1 == IF disc THEN <<>> ELSE mps
              ps1 == IF p.pusi THEN m1 ELSE <<>>
              m2 == Append(IF p.pusi THEN <<>> ELSE m1, p)
